@@ -211,7 +211,7 @@ def prop(ctx, case):
                         f"identifier {ident} of {entry[2]} was seen earlier in this run with another reference signature: {sig}",
                     )
             elif ident not in TABLE:
-                TABLE[ident] = (h, entry[1], (sig, entry[1], entry[2] + " [earlier case]") if len(TABLE) < 40000 else None)
+                TABLE[ident] = (h, entry[1], (sig, entry[1], entry[2] + " [earlier case] " + (__import__("json").dumps(b) if __import__("os").environ.get("VX_DEBUG_TABLE") else "")) if len(TABLE) < 40000 else None)
         if which == "y":
             s1 = bpl.RefSig(bp)
             changed = any(s1.full(i) != strict.full(i) for i in range(len(bp["nodes"])))
